@@ -77,19 +77,6 @@ class Gen:
                 out += self.nl() + self.ind()
         return out
 
-    def ws(self, tight=""):
-        """Like wsc but never a comment. Used inside *types* (tuple-type brackets, union bars): a comment there has no
-        anchor of its own and the formatter re-attaches it to an unrelated node; the resulting failures (finding F44
-        family) cannot be given a stable input signature for types (the AST has no spans for them), so the generator
-        does not place comments inside types. Comments inside *patterns* are still generated (signature
-        `comment-in-pattern`); corpus / std / test-suite sources are never narrowed."""
-        saved = self.comments
-        self.comments = 0.0
-        try:
-            return self.wsc(tight)
-        finally:
-            self.comments = saved
-
     def seqsep(self):
         """Separator between the chains of a sequence (comma or newline, with trivia)."""
         r = self.rng
@@ -210,10 +197,10 @@ class Gen:
                     fields.append("...'" + self.ident() + (("<" + self.type_(depth - 1) + ">") if self.chance(0.2) else ""))
             if not fields and name:
                 return name
-            return name + "[" + self.ws() + ("," + self.ws(" ")).join(fields) + (self.ws() + "," if fields and self.chance(0.1) else "") + self.ws() + "]"
+            return name + "[" + self.wsc() + ("," + self.wsc(" ")).join(fields) + (self.wsc() + "," if fields and self.chance(0.1) else "") + self.wsc() + "]"
         if k < 0.45:     # union (parenthesised unless top)
             members = [self.type_(depth - 1) for _ in range(r.choice([2, 2, 3, 5]))]
-            u = (self.ws(" ") + "|" + self.ws(" ")).join(members)
+            u = (self.wsc(" ") + "|" + self.wsc(" ")).join(members)
             return u if top else "(" + u + ")"
         if k < 0.52:
             i = (" & ").join(self.type_(depth - 1) for _ in range(2))
